@@ -36,6 +36,10 @@ type callState struct {
 	mu     sync.Mutex
 	log    []event
 	handed *proxy.Response // the response the stub handed in for this call
+	thread bool            // value case: traces travel in the request header / response metadata
+	v0     []string        // initial request trace
+	t0     []string        // trace of the backend's response
+	t0ok   bool            // false: the backend fails
 }
 
 func (cs *callState) add(e event) {
@@ -45,10 +49,18 @@ func (cs *callState) add(e event) {
 }
 
 // the innermost proxy of a shared instance
-func ctxStub(ctx context.Context, _ *proxy.Request) (*proxy.Response, error) {
+func ctxStub(ctx context.Context, rq *proxy.Request) (*proxy.Response, error) {
 	cs, _ := ctx.Value(ctxKey{}).(*callState)
 	if cs == nil {
 		return nil, innerErr{"no call state in the context"}
+	}
+	if cs.thread {
+		cs.add(event{kind: "backend", seen: append([]string{}, rq.Headers[traceKey]...)})
+		if !cs.t0ok {
+			return nil, innerErr{"backend failed"}
+		}
+		return &proxy.Response{Data: map[string]interface{}{"a": json.Number("1")}, IsComplete: true,
+			Metadata: proxy.Metadata{Headers: map[string][]string{traceKey: append([]string{}, cs.t0...)}}}, nil
 	}
 	cs.add(event{kind: "backend"})
 	r, err := cs.in.result()
@@ -69,7 +81,11 @@ func callShared(p proxy.Proxy, cs *callState) (o observed) {
 	}()
 	ctx, cancel := context.WithCancel(context.WithValue(context.Background(), ctxKey{}, cs))
 	defer cancel()
-	o.resp, o.err = p(ctx, request())
+	rq := request()
+	if cs.thread {
+		rq.Headers[traceKey] = append([]string{}, cs.v0...)
+	}
+	o.resp, o.err = p(ctx, rq)
 	return
 }
 
